@@ -400,7 +400,23 @@ def rule_complete_walks(ck):
     ])
 
 
+def rule_enable_always_programs(ck):
+    """enabling a watchpoint always ends with the registers programmed"""
+    prog = ck.prog
+    ck.rule("mpt.enable_programs", "HardwareBreakpoint::enable: every successful return has configured DR7 for the chosen slot (configure_bp + set_dr) and pushed the state to every thread (the for_each over tracee_iter); the object's own remembered slot is not an excuse to skip that — after a restart or an exit the remembered slot belongs to a process that is gone")
+    f = ck.anchor("debugger::watchpoint::HardwareBreakpoint::enable")
+    cfg = {c.bb for c in f.calls() if c.name.endswith("DebugControlRegister::configure_bp")}
+    dist = {c.bb for c in f.calls() if c.name.endswith("Iterator::for_each") and "tracee_iter(" in expr_str(expr_of(f, c.args[0], depth=8), 6)}
+    errs = f.error_exit_blocks()
+    rets = set(f.return_blocks())
+    skip_cfg = cut_edges_reach(f, [0], cfg | errs, set()) & rets
+    skip_dist = cut_edges_reach(f, [0], dist | errs, set()) & rets
+    ck.ob("mpt.enable_programs", "enable/every-success-configured-the-slot", bool(cfg) and not skip_cfg, f"returns reachable without configure_bp: {sorted(skip_cfg)}", f.loc(), what="enable() can report success without programming a debug register: the watchpoint is listed but never fires (for example after restart)")
+    ck.ob("mpt.enable_programs", "enable/every-success-reached-every-thread", bool(dist) and not skip_dist, f"returns reachable without the per-thread sync: {sorted(skip_dist)}", f.loc())
+
+
 def run(ck):
+    rule_enable_always_programs(ck)
     rule_complete_walks(ck)
     rule_activation_identity(ck)
     rule_companion_identity(ck)
